@@ -309,6 +309,14 @@ impl Out {
         self.samples.len() < self.max_samples
     }
     pub fn violation(&mut self, sig: String, witness: serde_json::Value) {
+        if !self.viol.contains_key(&sig) {
+            // report at once: the observation must survive even if the process dies later
+            let line = serde_json::json!({"t":"viol","property":self.property,"monitor":self.monitor,"sig":sig,"count":1,"witness":witness});
+            let stdout = std::io::stdout();
+            let mut o = stdout.lock();
+            writeln!(o, "{}", line).ok();
+            o.flush().ok();
+        }
         let e = self.viol.entry(sig).or_insert((0, witness));
         e.0 += 1;
     }
@@ -354,10 +362,8 @@ impl Out {
     pub fn finish(self) {
         let stdout = std::io::stdout();
         let mut o = stdout.lock();
-        for (sig, (n, w)) in &self.viol {
-            let line = serde_json::json!({"t":"viol","property":self.property,"monitor":self.monitor,"sig":sig,"count":n,"witness":w});
-            writeln!(o, "{}", line).ok();
-        }
+        let counts: BTreeMap<&String, u64> = self.viol.iter().map(|(k, v)| (k, v.0)).collect();
+        writeln!(o, "{}", serde_json::json!({"t":"violcounts","counts":counts})).ok();
         let line = serde_json::json!({
             "t":"summary","property":self.property,"monitor":self.monitor,
             "evaluations":self.evaluations,"distinct":self.distinct.len(),
